@@ -861,6 +861,8 @@ func runC04(c *Ctx) {
 		c.Check("module::readers-of-Config.Checks", token.NoPos, n == 0, "%d readers of Config.Checks outside config, lintcmd and lintcmd/runner", n)
 	})
 
+	c.Rule("R4.4b", func() { checksReadOnMissPath(c) })
+
 	c.Rule("R4.5", func() {
 		c.Floor("R4.5", 10)
 		roots := append([]*ssa.Function{entryDo, unc}, analyzerRunFuncs(c)...)
@@ -1157,4 +1159,51 @@ func runC04(c *Ctx) {
 		}
 		c.Check("module::single-SetSalt", token.NoPos, callers == 1, "%d callers of cache.SetSalt", callers)
 	})
+}
+
+// checksReadOnMissPath requires that nothing the runner executes when it has
+// to analyse a package (the miss path: do → doUncached → analyzers, including
+// function values it is handed) reads Config.Checks. The selection of checks
+// is applied by lintcmd after results were loaded, from the cache or fresh —
+// which is the reason Checks is left out of the cache key. A reader on the
+// miss path makes what is cached depend on the selection of the run that
+// happened to populate the cache.
+func checksReadOnMissPath(c *Ctx) {
+	do := c.Func("lintcmd/runner", "(*subrunner).do")
+	unc := c.Func("lintcmd/runner", "(*subrunner).doUncached")
+	linked := map[string]bool{}
+	if c.Pkgs[Module+"/cmd/staticcheck"] != nil {
+		linked = linkedPackages(c)
+	} else {
+		for path := range c.Pkgs {
+			linked[path] = true
+		}
+	}
+	roots := []*ssa.Function{do, unc}
+	reach, parent := c.Reachable(roots, func(fn *ssa.Function) bool { return FuncInModule(fn) && linked[FuncPkgPath(fn)] })
+	var fns []*ssa.Function
+	for fn := range reach {
+		if FuncInModule(fn) {
+			fns = append(fns, fn)
+		}
+	}
+	sort.Slice(fns, func(i, j int) bool { return fns[i].String() < fns[j].String() })
+	if len(fns) < 20 {
+		c.Undecided("only %d module functions reachable from (*subrunner).do", len(fns))
+	}
+	n := 0
+	for _, fn := range fns {
+		if FuncPkgPath(fn) == Module+"/config" {
+			// package config loads, merges and prints whole configurations (Load, Merge, String): it transports
+			// Checks as part of the value; what the runner does with the merged value is what is checked here
+			continue
+		}
+		for _, a := range FieldAccesses(fn) {
+			if shortOwner(a.Owner) == "config.Config" && a.Field == "Checks" && a.Kind != "write" {
+				n++
+				c.Check(FuncKey(fn)+"::miss-path-reads-Config.Checks", a.Instr.Pos(), false, "the runner's miss path reads Config.Checks (%s), but Checks is excluded from the cache key because the selection is applied after results were loaded; what is cached would depend on the selection of the run that populated the cache", CallChain(parent, fn))
+			}
+		}
+	}
+	c.Check("(*subrunner).do::miss-path-never-reads-Config.Checks", do.Pos(), n == 0, "%d readers of Config.Checks (outside package config, which only transports the value) among the %d module functions reachable from the runner's miss path", n, len(fns))
 }
